@@ -76,19 +76,20 @@ NAME_OK = set("abcdefghijklmnopqrstuvwxyzABCDEFGHIJKLMNOPQRSTUVWXYZ0123456789_:.
 DIGITS = set("0123456789")
 BIG_VERSIONS = [0, 1, 9, 10, 99, 2**31 - 1, 2**31, 2**63, 2**64, 10**30, 10**100]
 NON_ASCII = [
-    "a-v١",  # ARABIC-INDIC DIGIT ONE
-    "a-v１",  # FULLWIDTH DIGIT ONE
-    "a-v1٢",
-    "a-v²",  # SUPERSCRIPT TWO (digit, not decimal)
-    "é-v1",  # e acute
-    "αβ-v0",
-    "ａ-v1",  # fullwidth a
-    "a -v1",  # no-break space
-    "a‐v1",  # unicode hyphen instead of '-'
-    "a-ѵ1",  # cyrillic izhitsa instead of 'v'
+    "a-v\u0661",  # ARABIC-INDIC DIGIT ONE as the version
+    "a-v\uff11",  # FULLWIDTH DIGIT ONE
+    "a-v1\u0662",  # ASCII digit followed by ARABIC-INDIC DIGIT TWO
+    "a-v\u00b2",  # SUPERSCRIPT TWO (isdigit, not decimal)
+    "\u00e9-v1",  # e acute as the name
+    "\u03b1\u03b2-v0",  # greek letters
+    "\uff41-v1",  # fullwidth a
+    "a\u00a0-v1",  # no-break space in the name
+    "a\u2010v1",  # unicode hyphen instead of '-'
+    "a-\u04751",  # cyrillic izhitsa instead of 'v'
     "a-v1\r",
-    "a-v1 ",
-    "中-v3",
+    "a-v1\u2028",  # LINE SEPARATOR after the version
+    "a-v1\x0b",  # vertical tab after the version
+    "\u4e2d-v3",  # CJK name
 ]
 _CAP = 5  # violations kept per signature per task (the count is always complete)
 
